@@ -31,7 +31,8 @@ VARSETS = [['alp'], ['rho'], ['alp', 'betax', 'betay', 'betaz'],
            ['gxx', 'gxy', 'gxz', 'gyy', 'gyz', 'gzz', 'alp'],
            ['kxx', 'kxy', 'kxz', 'kyy', 'kyz', 'kzz', 'rho'],
            ['vel[0]', 'vel[1]', 'vel[2]', 'rho', 'eps'], ['trK', 'H'],
-           ['tau', 'alp'], ['M1', 'M2', 'M3']]
+           ['tau', 'alp'], ['M1', 'M2', 'M3'], ['Psi4r', 'Psi4i'], ['Psi4r', 'Psi4i', 'alp'],
+           ['dtalp', 'alp', 'dtbetax', 'dtbetay', 'dtbetaz']]
 
 
 def random_cuts(rng, n, k):
